@@ -263,6 +263,9 @@ func runC17(w *mon.W) {
 		{"plain", func(b []byte) io.Reader { return bytes.NewReader(b) }},
 		{"one-byte", func(b []byte) io.Reader { return iotest.OneByteReader(bytes.NewReader(b)) }},
 		{"data-err", func(b []byte) io.Reader { return iotest.DataErrReader(bytes.NewReader(b)) }},
+		// a legal reader that now and then returns no data and no error, and short pieces otherwise
+		{"empty-reads", func(b []byte) io.Reader { return &zeroReader{r: bytes.NewReader(b)} }},
+		{"half", func(b []byte) io.Reader { return iotest.HalfReader(bytes.NewReader(b)) }},
 	}
 	for it := 0; it < nsets; it++ {
 		n := sizes[it%len(sizes)]
